@@ -15,6 +15,7 @@ func init() {
 			{ID: "C20-R1", Doc: "scope transport walks the registry in index order on both sides", Run: c20r1},
 			{ID: "C20-R2", Doc: "instance types registered, exported, additive merge; Merge/Reset cover every metric", Run: c20r2},
 			{ID: "C20-R3", Doc: "scope plumbing in executors and Result", Run: c20r3},
+			{ID: "C20-R4", Doc: "a metric instance is published by a compare-and-swap whose outcome decides which instance is used", Run: c20r4},
 		},
 	})
 }
